@@ -81,6 +81,14 @@ def alphabet(r, base):
     A.append(T.Entry("dir", b"e/sub/", perms=0o40777, mtime=1000000007))     # 45
     A.append(T.Entry("dir", b"aaaa/sub/", perms=0o40711, mtime=1000000008))  # 46
     A.append(T.Entry("dir", b"b/sub/", perms=0o40777, mtime=1000000009))     # 47
+    # a deferred link TWO levels below a harmless link whose target is later replaced by a dangerous one (the guard must look at EVERY
+    # directory prefix, not only the immediate parent): d/sub/, L -> d, b -> L, b/sub/c -> /ABS/outside/x (deferred), L -> ../outside
+    # (deferred; its path is LONGER than b/sub/c, so it is created first); /outside/sub exists as a real directory
+    A.append(T.Entry("dir", b"d/sub/", perms=0o40755, mtime=1100000001))            # 48
+    A.append(T.Entry("link", b"aaaaaaaa", target=b"d"))                              # 49
+    A.append(T.Entry("link", b"b", target=b"aaaaaaaa"))                              # 50
+    A.append(T.Entry("link", b"b/sub/c", target=out_abs + b"/x"))                    # 51
+    A.append(T.Entry("link", b"aaaaaaaa", target=b"../outside"))                     # 52
     # every file member records a modification time (a metadata call is one more thing that can land outside)
     for i, e in enumerate(A):
         if e.kind == "file" and not e.mtime:
